@@ -313,11 +313,18 @@ def check_sha(ck, prog):
     from sa import fd as _fd
     pcalls = sorted({(ex.line(c), b.id) for b, i, e in fin.iter_elems() for c in ex.calls(e, into_refs=False)
                      if c.get("fn") == "process"})
-    if len(pcalls) < 2:
-        raise AnalysisBroken("lzma_sha256_finish: expected a conditional and a final process() call")
+    helpers = {c.get("fn") for b, i, e in fin.iter_elems() for c in ex.calls(e, into_refs=False)} - {
+        "process", "memzero", "memset", "memcpy", "conv64be", "conv32be", "bswap64", "bswap32", "__builtin_bswap64",
+        "__builtin_bswap32", None}
+    if not pcalls or (len(pcalls) < 2 and helpers):
+        raise AnalysisBroken("lzma_sha256_finish: expected a conditional and a final process() call (found %d, helpers %s)" % (
+            len(pcalls), sorted(helpers)))
     early = {bid for (ln, bid) in pcalls[:-1]}
     wrong = []
-    for p0 in range(64):
+    if len(pcalls) < 2:
+        # a single, unconditional process(): the second padding block that lengths >= 56 (mod 64) need cannot exist
+        wrong = list(range(56, 64))
+    for p0 in (range(64) if len(pcalls) >= 2 else ()):
         g = _fd.FD(prog, fin, [_fd.Key("var", "pos", domain=range(0, 66), label="pos")], cg=common.callgraph(prog))
         g.value_hook = lambda n, p0=p0: (frozenset([p0]) if ex.show(n) == "check->state.sha256.size" else None)
         g.run([g.top_state()])
@@ -332,7 +339,60 @@ def check_sha(ck, prog):
           key="SHA:padding-blocks")
     ck.ob("C14-SHA", "length-field", okf and mul8, common.where(fin),
           "message length is converted to bits and stored big-endian in the last 8 bytes", key="SHA:length")
-    ck.floor("C14-SHA", 9)
+    # the message length counter is 64 bits wide (FIPS 180-4: length < 2^64 bits; a 32-bit byte counter wraps at 4 GiB,
+    # a 32-bit bit counter at 512 MiB)
+    srec = prog.records.get("lzma_sha256_state")
+    if not srec:
+        raise AnalysisBroken("record lzma_sha256_state not found")
+    sty = [fd_.get("ty") for fd_ in srec["fields"] if fd_["n"] == "size"]
+    ck.ob("C14-SHA", "length-counter-64", sty == ["uint64_t"], "src/liblzma/check/check.h",
+          "lzma_sha256_state.size is uint64_t" if sty == ["uint64_t"] else
+          "lzma_sha256_state.size has type %s instead of uint64_t: the message length that goes into the last block wraps for "
+          "long inputs and the digest is not SHA-256" % sty, key="SHA:length-counter-64")
+    ck.floor("C14-SHA", 10)
+
+
+def check_checkflow(ck, prog):
+    """The integrity-check interface returns the standard value of THE DATA only if the Block coders feed it every byte
+    exactly once and finish it exactly once:
+    (update) in block_encode()/block_decode() every return that can follow the nested coder's call with a non-constant
+    status passes lzma_check_update() or the guard that says nothing was consumed/produced (or that the check is ignored);
+    (finish) lzma_check_finish() is not idempotent (SHA-256 pads inside the buffer it hashes): after it, coder->sequence is
+    advanced before any non-fatal return, so that a re-entered state cannot finish twice."""
+    from . import reinit
+    ck.rule("C14-FLOW", "Block coders: lzma_check_update() on every continuing path after the nested coder ran; "
+            "lzma_check_finish() is followed by a state advance before any non-fatal return")
+    for fn, file in (("block_encode", "block_encoder.c"), ("block_decode", "block_decoder.c")):
+        f = prog.fn(fn, file)
+        ck.saw_function(f)
+        calls = [b.id for b, i, e in f.iter_elems() for c in ex.calls(e, into_refs=False)
+                 if c.get("callee") is not None and ex.show(c["callee"]).endswith("next.code") and len(c.get("args", ())) == 9]
+        upd = {b.id for b, i, e in f.iter_elems() for c in ex.calls(e, into_refs=False) if c.get("fn") == "lzma_check_update"}
+        if not calls or not upd:
+            raise AnalysisBroken("%s: nested coder call / lzma_check_update() not found" % fn)
+        guards = {b.id for b in f.blocks.values() if b.term and "cond" in b.term and
+                  any(t in ex.show(b.term["cond"]) for t in ("in_used", "out_used", "ignore_check"))}
+        seen, st, hit = set(), [y for y in f.blocks[calls[0]].succs if y is not None], None
+        while st:
+            x = st.pop()
+            if x in seen or x in upd or x in guards or x is None:
+                continue
+            seen.add(x)
+            for e in f.blocks[x].elems:
+                d = ex.deref(e) if e is not None else {}
+                if d.get("k") == "ret" and d.get("e") is not None and ex.const_val(d["e"]) is None:
+                    hit = e
+            if hit is not None:
+                break
+            st.extend(f.blocks[x].succs)
+        ck.ob("C14-FLOW", fn + ":update", hit is None, common.where(f, hit),
+              "%s: after the nested coder ran, every `return ret` has passed lzma_check_update() or its nothing-to-hash guard" % fn
+              if hit is None else
+              "%s(): `%s` (line %s) is reachable after the nested coder consumed/produced data without lzma_check_update() and "
+              "without the guard that nothing was processed: those bytes are missing from the Check value" % (
+                  fn, ex.show(hit), ex.line(hit)), key="FLOW:%s:update" % fn)
+    reinit.check_init_once(ck, prog, "C14-FLOW", files={"block_decoder.c", "block_encoder.c"}, one_shot=("lzma_check_finish",))
+    ck.floor("C14-FLOW", 4)
 
 
 def _beval(n, env):
@@ -530,3 +590,4 @@ def run(ck):
     check_disp(ck, prog)
     check_maskw(ck, prog)
     check_datapath(ck, prog)
+    check_checkflow(ck, common.program(ck, ("liblzma",)))
